@@ -142,12 +142,24 @@ def items_of(node):
     return node[1]
 
 
+def plain_value(v):
+    """A SetContext value of the recipe: {"__odict__": {...}} / {"__context__": {...}} stand for
+    a collections.OrderedDict / a lena.context.Context holding that dictionary (a dictionary
+    like any other for the fold)."""
+    if isinstance(v, dict):
+        if len(v) == 1 and next(iter(v)) in ("__odict__", "__context__"):
+            return plain_value(next(iter(v.values())))
+        return dict((k, plain_value(x)) for k, x in v.items())
+    return v
+
+
 def fold_item(it, ctx, path, rec):
     """Return the static context after *it* given the context *ctx* before it.
     Never mutates *ctx*.  rec[label] = record of every consumer leaf."""
     k = it[0]
     if k == "set":
         _, key, value = it
+        value = plain_value(value)
         if is_template(value):
             ok, res = fmt(value, ctx)
             if not ok:
